@@ -315,7 +315,8 @@ def read_machine(world, ex, st, ref):
 
 
 def steps_family(world: World, res: Result, tier: str, kf: KnownFindings):
-    """Invariant I(m, T):  steps[9] == sum(steps[0..9])  and  steps[9] < slippage
+    """Invariant I(m, T):  steps[9] == sum(steps[0..9])  and  steps[9] <= slippage  (any batching rule that keeps the
+                          pending count bounded by the slippage is accepted: the bound only serves to exclude counter overflow)
                           and spent + sum_i steps[i]*cost_i == T    (T = ghost total, per dimension)
     One call of step_and_maybe_spend(k) from an arbitrary I-state:  on Ok  I holds with T' = T + cost_k and the
     remaining budget is >= 0 whenever a flush happened;  on Err(OutOfExError) a flush happened and left a negative component;
@@ -342,7 +343,7 @@ def steps_family(world: World, res: Result, tier: str, kf: KnownFindings):
             steps = [L[f"steps{i}"] for i in range(10)]
             costs_mem = [L[f"cost.{MC_FIELD[k]}.mem"] for k in kinds]
             costs_cpu = [L[f"cost.{MC_FIELD[k]}.cpu"] for k in kinds]
-            st.pc += [steps[9] == z3.Sum(steps[:9]), steps[9] < L["slippage"], L["slippage"] >= 1, L["slippage"] <= (1 << S_BITS)]
+            st.pc += [steps[9] == z3.Sum(steps[:9]), steps[9] <= L["slippage"], L["slippage"] >= 1, L["slippage"] <= (1 << S_BITS)]
             for c in costs_mem + costs_cpu:
                 st.pc.append(z3.And(c >= 0, c < (1 << C_BITS)))
             for b in (L["budget.mem"], L["budget.cpu"]):
@@ -379,7 +380,7 @@ def steps_family(world: World, res: Result, tier: str, kf: KnownFindings):
             v = o.value
             if isinstance(v, Adt) and v.variant == "Ok":
                 n_ok += 1
-                good = z3.And(d_mem == costs_mem[k], d_cpu == costs_cpu[k], psteps[9] == z3.Sum(psteps[:9]), psteps[9] < L["slippage"],
+                good = z3.And(d_mem == costs_mem[k], d_cpu == costs_cpu[k], psteps[9] == z3.Sum(psteps[:9]), psteps[9] <= L["slippage"],
                               # success never leaves a negative budget behind after a flush
                               z3.Implies(psteps[9] == 0, z3.And(post_mem >= 0, post_cpu >= 0)))
             elif isinstance(v, Adt) and v.variant == "Err":
